@@ -213,6 +213,8 @@ def run(tier, seed):
         for off in (0, 1, 17, 6000, 6001, 12500):
             prog = line10 * (off // 10) + "nop\n" * (off % 10)
             out = os.path.join(tmp, "out_%d.bin" % off)
+            with open(out, "wb") as f:          # the target already exists and is longer than the code: it must be replaced
+                f.write(b"\xee" * 20000)
             o = hexec.run(["i\tA%s\tB%s\tG" % (hexec.esc(prog) if prog else "", hexec.esc(out))], variant="wrap", dangerous=True,
                           nproc=1)[0]
             rep.evaluations += 1
@@ -233,6 +235,16 @@ def run(tier, seed):
             if disc:
                 rep.fail({"class": "binfile", "offset": str(off)}, disc, {"kind": "bin", "offset": off},
                          "asm_create_bin_file at offset %d: %s" % (off, [x[:50] for x in o]))
+        # the same instance writes a long program, then a shorter one, to the same path
+        out = os.path.join(tmp, "twice.bin")
+        o = hexec.run(["i\tA%s\tB%s\to0\tA%s\tB%s\tG" % (hexec.esc(line10 * 700), hexec.esc(out), hexec.esc("mov rax, 0x2a\nret\n"),
+                                                              hexec.esc(out))], variant="wrap", dangerous=True, nproc=1)[0]
+        rep.evaluations += 1
+        data = open(out, "rb").read() if os.path.exists(out) else None
+        if hexec.is_crash(o) or data is None or data.hex() != "b82a000000c3":
+            rep.fail({"class": "binfile", "offset": "rewrite-shorter"}, ["bin-file-differs"], {"kind": "bin", "offset": -2},
+                     "asm_create_bin_file twice to the same path (7000 bytes, then 6 bytes): file holds %s bytes" %
+                     (len(data) if data is not None else None))
         o = hexec.run(["i\tAnop\\n\tB%s" % hexec.esc(os.path.join(tmp, "no/such/dir/out.bin"))], variant="wrap", dangerous=True, nproc=1)[0]
         rep.evaluations += 1
         if hexec.is_crash(o) or not any(x.startswith("B:1") for x in o):
